@@ -236,6 +236,32 @@ func runC20(c *ctx) {
 		scp.mode, scp.redis, scp.disco, scp.acr = "proxy", "ok", dv, "supported"
 		cases = append(cases, scp)
 	}
+	// every provider flavour x each thing that can be MISSING (client id, credentials, discovery URL) and x every discovery shape: the completeness rules are the
+	// same whichever flavour is configured (only the environment names and, for idporten, the defaults differ)
+	for _, pv := range []string{"idporten", "azure"} {
+		for _, miss := range []string{"clientID", "jwk", "wellKnown", "wellKnownUnreachable"} {
+			sc := baseCase()
+			sc.provider = pv
+			switch miss {
+			case "clientID":
+				sc.clientID = false
+			case "jwk":
+				sc.jwk = "absent"
+			case "wellKnown":
+				sc.wellKnown = "absent"
+			case "wellKnownUnreachable":
+				sc.wellKnown = "unreachable"
+			}
+			cases = append(cases, sc)
+			sc.viaEnv = true
+			cases = append(cases, sc)
+		}
+		for _, dv := range []string{"noacr", "emptyacr", "nolocale", "noalg"} {
+			sc := baseCase()
+			sc.provider, sc.disco = pv, dv
+			cases = append(cases, sc)
+		}
+	}
 	nPairs := 60
 	if c.thorough() {
 		nPairs = 1500
